@@ -15,7 +15,9 @@ class GopherProtocol(BaseGopherProtocol):
     def renderobjinfo(self, entry):
         retval = (
             entry.gettype("0")
-            + entry.getname()
+            # An entry without a title (a link block with no Name= line) is
+            # shown under its selector, as the HTTP and WAP menus do.
+            + entry.getname(entry.getselector(""))
             + "\t"
             + entry.getselector()
             + "\t"
